@@ -212,6 +212,9 @@ def snapshot(w, identities=True, name_authority=True) -> dict:
     for v in w.values:
         s[w.label(v)] = snap_value(w, v, identities)
     for n in w.nodes:
+        if id(n) in getattr(w, "broken", {}):
+            s[w.label(n)] = {"unreadable": w.broken[id(n)]}
+            continue
         s[w.label(n)] = snap_node(w, n, identities)
     for g in w.graphs:
         try:
